@@ -2633,7 +2633,15 @@ def transform_compressible(items, constants, labels):
 
     def ImmEquals(value):
         def inner(i, p, e):
-            imm = eval_immediate(i, p, e)
+            # the forms chosen by an exact immediate (c.nop, c.mv, c.jr, c.jalr)
+            # drop it, so the value has to be final already: a plain expression
+            # over constants (labels and positions still move after this check)
+            if not isinstance(i.imm, Arithmetic):
+                return False
+            try:
+                imm = i.imm.eval(p, constants, i.line)
+            except AssemblerError:
+                return False
             return imm == value
         return inner
 
